@@ -204,6 +204,93 @@ class GetOrMake(FunctionContract):
                 + [("invariant/" + n, f) for n, f in map_invariant(D1, EX1)])
 
 
+class VNameGenerator(V):
+    """a pytools.UniqueNameGenerator object (A-UNG): .forced_prefix, .add_name(n) registers n"""
+    ty = None
+
+    def __init__(self, existing_ref):
+        self.existing_ref = existing_ref
+
+
+def _gen_add_name(ctx, it, obj, args, kw):
+    g = ctx.deref(obj)
+    ex = ctx.deref(g.existing_ref)
+    ctx.store(g.existing_ref, VSet(ex.ty, Store(ex.t, ctx.deref(args[0]).t, True)))
+    return NONE
+
+
+VNameGenerator.methods = {"add_name": _gen_add_name}
+IDENT.methods["startswith"] = lambda ctx, it, obj, args, kw: VBool(generated_by(ctx.deref(obj).t))
+
+
+class MapInit(FunctionContract):
+    """KeyToUniqueNameMap.__init__ with a start dict and a pre-existing generator: the map owns a fresh copy
+    of the start dict, and every start value that carries the generator's prefix is registered with it"""
+    prop = PROP
+    relpath = UTILS
+    qualname = "KeyToUniqueNameMap.__init__"
+
+    def params(self, ctx):
+        ex = ctx.alloc(TSet(IDENT).fresh("existing"))
+        ctx.env["$existing"] = ex
+        ctx.env["self"] = ctx.alloc(VObj(TObj("KeyToUniqueNameMap", {"_dict": MAP, "_generator": MAP}), {}))
+        ctx.env["start"] = ctx.alloc(MAP.fresh("start"))
+        ctx.env["forced_prefix"] = VPy("")
+        ctx.env["key_translate_func"] = VPy("<translate>")
+        ctx.env["name_generator"] = VNameGenerator(ex)
+
+    def requires(self, st):
+        D = st.start
+        k1, k2 = z3.Consts("k1 k2", Key)
+        return [("start-dict-is-injective", ForAll([k1, k2], Implies(And(Select(D.dom, k1), Select(D.dom, k2), k1 != k2),
+                                                                     Select(D.val, k1) != Select(D.val, k2))))]
+
+    def m_dict(self, ctx, it, args, kw):
+        d = ctx.deref(args[0])
+        return ctx.alloc(VDict(d.ty, d.dom, d.val))       # dict(x): a new dict object with the same items
+
+    names = property(lambda self: {
+        "dict": VFunc("dict", self.m_dict),
+        "_KeyTranslatingUniqueNameGeneratorWrapper": VFunc("wrapper", lambda ctx, it, a, k: VPy("<wrapper>")),
+        "UniqueNameGenerator": VFunc("UniqueNameGenerator", lambda ctx, it, a, k: VNameGenerator(ctx.alloc(empty_set(TSet(IDENT)))))})
+
+    def getattr_hook(self, ctx, it, obj, name):
+        o = ctx.deref(obj)
+        if isinstance(o, VNameGenerator) and name == "forced_prefix":
+            return VPy("<forced_prefix>")
+        return None
+
+    def truth_hook(self):
+        pass
+
+    def equal_hook(self, ctx, it, a, b, identity):
+        if isinstance(b, VNone) and isinstance(a, (VDict, VNameGenerator)) or isinstance(a, VNone) and isinstance(b, (VDict, VNameGenerator)):
+            return z3.BoolVal(False)
+        return None
+
+    def inv(self, s):
+        v = z3.Const("v", Ident)
+        EX = s._deref(s._env["$existing"]).t
+        return [("processed-prefixed-start-values-are-registered",
+                 ForAll([v], Implies(And(Select(s.loop(0)["$proc"].t, v), generated_by(v)), Select(EX, v)))),
+                ("start-unchanged", And(s.start.dom == s.old.start.dom, s.start.val == s.old.start.val))]
+
+    loops = property(lambda self: {0: dict(shape="for existing_name in start.values()", inv=self.inv,
+                                           havoc_refs=lambda ctx: [ctx.env["$existing"]])})
+
+    def ensures(self, st):
+        selfo = st._deref(st._env["self"])
+        dref = selfo.fields.get("_dict")
+        D = st._deref(dref)
+        EX = st._deref(st._env["$existing"]).t
+        k1 = z3.Const("k1", Key)
+        return [("the-map-owns-a-fresh-copy-of-the-start-dict(no-aliasing-with-the-caller's-object)",
+                 z3.BoolVal(isinstance(dref, VRef) and dref.loc != st._env["start"].loc)),
+                ("same-items-as-start", And(D.dom == st.old.start.dom, D.val == st.old.start.val)),
+                ("prefixed-start-values-are-registered-with-the-generator",
+                 ForAll([k1], Implies(And(Select(D.dom, k1), generated_by(Select(D.val, k1))), Select(EX, Select(D.val, k1)))))]
+
+
 # ==========================================================================
 # 3. name spaces of the two managers (string prefixes, z3 strings) and storage classes
 # ==========================================================================
@@ -308,7 +395,7 @@ class GetItem(FunctionContract):
 
 
 def units():
-    return [FunctionUnit(Sanitiser()), FunctionUnit(GetOrMake()), FunctionUnit(IsStateVariable()),
+    return [FunctionUnit(Sanitiser()), FunctionUnit(MapInit()), FunctionUnit(GetOrMake()), FunctionUnit(IsStateVariable()),
             FunctionUnit(GetItem(PY, "PythonNameManager.__getitem__")),
             FunctionUnit(GetItem(FT, "FortranNameManager.__getitem__")),
             LemmaUnit("lemma:name-spaces", prefix_lemmas),
